@@ -105,6 +105,10 @@ func genC14(ev *Ev) func(t *rapid.T) model.Case {
 					nf = model.FAR{ID: nf.ID, Action: model.ActBUFF | model.ActNOCP, HasFwd: true}
 				case 1:
 					nf = model.FAR{ID: nf.ID, Action: model.ActDROP, HasFwd: true}
+				case 2:
+					// the rule stops forwarding but the control plane keeps stating its tunnel (Outer Header
+					// Creation rides along): the rule still has tunnel parameters when it is updated next
+					nf.Action = rapid.SampledFrom([]uint8{model.ActBUFF | model.ActNOCP, model.ActBUFF, model.ActDROP}).Draw(t, "idleaction")
 				}
 				switch rapid.IntRange(0, 3).Draw(t, "flag") {
 				case 0:
@@ -250,8 +254,15 @@ func runC14(c model.Case, ev *Ev) error {
 				continue
 			}
 			flagged++
-			if old.Action&model.ActFORW != 0 && old.HasOHC {
+			// A rule has tunnel parameters if it was created forwarding with an Outer Header Creation, or if its last
+			// update carried one - whatever action that update gave it. (Forwarding Parameters of a rule created
+			// with another action are not part of the rule, TS 29.244 table 7.5.2.3-1.)
+			if old.HasOHC && (old.Action&model.ActFORW != 0 || changed[fmt.Sprint(op.Sess, u.ID)]) {
+				// the tunnel the rule had before the update, whether or not it was forwarding at that moment
 				want = append(want, tunnel{old.Peer, old.TEID})
+				if old.Action&model.ActFORW == 0 {
+					ev.Label("marker-for-idle-rule-with-tunnel")
+				}
 			} else {
 				optional++ // the rule had no tunnel before: nothing is asserted
 			}
